@@ -11,10 +11,10 @@ C[P + "capture"] = dict(
     params={"self": GSELF, "name": "optname"},
     raises={"InvalidArgumentTypeException": "not NONE(name) and not STRV(name)",
             "InvalidCapturingGroupNameException": "STRV(name) and not VALIDNAME(name)"},
-    ensures="SAME_TREE(TEXT(result), REF_CAPTURE(self, name)) and IMPLIES(EMPTY(self), result is self)",
+    ensures="SAME_TREE(TEXT(result), REF_CAPTURE(self, name)) and IMPLIES(EMPTY(self), SAME_TEXT(TEXT(result), TEXT(self)))",
     returns="pregex", ref="REF_CAPTURE(self, name)", returns_self_if="EMPTY(self)", atomic=True, frame=[])
 
 C[P + "group"] = dict(
     params={"self": GSELF, "is_case_insensitive": "bool"}, raises={},
-    ensures="SAME_TREE(TEXT(result), REF_GROUP(self, is_case_insensitive)) and IMPLIES(EMPTY(self), result is self)",
+    ensures="SAME_TREE(TEXT(result), REF_GROUP(self, is_case_insensitive)) and IMPLIES(EMPTY(self), SAME_TEXT(TEXT(result), TEXT(self)))",
     returns="pregex", ref="REF_GROUP(self, is_case_insensitive)", returns_self_if="EMPTY(self)", atomic=True, frame=[])
